@@ -146,6 +146,11 @@ func VerifC12OnceStep() {
 	block := Raw("<blk>")
 	fixed := Raw("<fix>")
 	handles := [2]*OnceHandle{NewOnceHandle(), NewOnceHandle(WithComponent(fixed))}
+	if symBool("plainHandles") {
+		// handles that were not made by the constructor (zero-value struct fields, &OnceHandle{})
+		// are distinct handles all the same
+		handles = [2]*OnceHandle{{}, {c: fixed}}
+	}
 	ctxs := [2]context.Context{InitializeContext(context.Background()), InitializeContext(context.Background())}
 	var pre [2][2]bool
 	for c := range ctxs {
@@ -180,6 +185,9 @@ func VerifC12History() {
 	s := [2]ComponentScript{{Name: "s0", Function: "F0;", Call: "c0", CallInline: "c0"}, {Name: "s1", Function: "F1;", Call: "c1", CallInline: "c1"}}
 	cl := [2]ComponentCSSClass{{ID: "k0", Class: ".k0{}"}, {ID: "k1", Class: ".k1{}"}}
 	hs := [2]*OnceHandle{NewOnceHandle(), NewOnceHandle()}
+	if symBool("plainHandles") {
+		hs = [2]*OnceHandle{{}, new(OnceHandle)}
+	}
 	ctxs := [2]context.Context{InitializeContext(context.Background()), InitializeContext(context.Background())}
 	ws := [2]*verifW{{}, {}}
 	var derived [2]context.Context
@@ -239,8 +247,10 @@ func VerifC12Middleware() {
 		}
 	}
 	page := &verifW{}
+	sc := ComponentScript{Name: "s0", Function: "F0;", Call: "c0", CallInline: "c0"}
 	next := http.HandlerFunc(func(w http.ResponseWriter, r *http.Request) {
 		_ = RenderCSSItems(r.Context(), page, cl[0], cl[1], cl[0])
+		_ = RenderScriptItems(r.Context(), page, sc)
 	})
 	mw := NewCSSMiddleware(next, reg...)
 	mw.ServeHTTP(&verifRWc12{hdr: http.Header{}}, &http.Request{URL: &url.URL{Path: "/page"}})
@@ -253,8 +263,15 @@ func VerifC12Middleware() {
 	if want != "" {
 		want = "<style type=\"text/css\">" + want + "</style>"
 	}
+	want += "<script>F0;</script>"
 	symCover("middleware")
 	symAssertEq(string(page.b), want, "middleware: registered classes are never inlined, the others once")
+	// every request is a rendering context of its own: later pages get their definitions too
+	for i := 0; i < 2; i++ {
+		page.b = nil
+		mw.ServeHTTP(&verifRWc12{hdr: http.Header{}}, &http.Request{URL: &url.URL{Path: "/page"}})
+		symAssertEq(string(page.b), want, "middleware: a later request through the same middleware renders the same page")
+	}
 	sheet := &verifRWc12{hdr: http.Header{}}
 	mw.ServeHTTP(sheet, &http.Request{URL: &url.URL{Path: "/styles/templ.css"}})
 	wantSheet := ""
